@@ -466,6 +466,12 @@ func encryptFrags(log *slog.Logger, cfg *ResponseConfig, drmCfg *drm.DrmConfig,
 	var key, kid, iv []byte
 	var scheme string
 	ed := rp.encData
+	if ed == nil {
+		if rp.PreEncrypted {
+			return fmt.Errorf("pre-encrypted representation %s cannot be encrypted again", rp.ID)
+		}
+		return nil // representation that is not prepared for encryption (e.g. subtitles): served in the clear like its init segment
+	}
 	switch cfg.DRM {
 	case "eccp-cenc", "eccp-cbcs":
 		scheme = strings.TrimPrefix(cfg.DRM, "eccp-")
